@@ -11,11 +11,13 @@ from . import tlaval
 SITE = {"CL": "dulwich/index.py:build_index_from_tree", "RI": "dulwich/index.py:build_index_from_tree",
         "CO": "dulwich/index.py:update_working_tree", "COF": "dulwich/index.py:update_working_tree",
         "RH": "dulwich/index.py:update_working_tree", "RM": "dulwich/porcelain/__init__.py:reset", "ST": "dulwich/stash.py:Stash.pop",
-        "AP": "dulwich/patch.py:apply_patches", "MV": "dulwich/patch.py:_apply_rename_or_copy"}
+        "AP": "dulwich/patch.py:apply_patches", "MV": "dulwich/patch.py:_apply_rename_or_copy",
+        "SU": "dulwich/porcelain/submodule.py:submodule_update", "STL": "dulwich/stash.py:Stash.pop"}
 ENTRY = {"CL": "porcelain.clone", "RI": "WorkTree.reset_index", "CO": "porcelain.checkout",
          "COF": "porcelain.checkout(force=True)", "RH": "porcelain.reset(mode='hard')", "RM": "porcelain.reset(mode='mixed')",
          "ST": "porcelain.stash_pop", "AP": "porcelain.apply_patch",
-         "MV": "porcelain.apply_patch (rename/copy patch)"}
+         "MV": "porcelain.apply_patch (rename/copy patch)",
+         "SU": "porcelain.submodule_update(init=True)", "STL": "Stash.pop on a long-lived Stash object"}
 
 
 TOKENS = {"{ZWNJ}": b"\xe2\x80\x8c", "{FF}": b"\xff\xfe"}
@@ -183,15 +185,18 @@ def graph_jobs(g, prot_of, max_finals=24):
     for s, finals in by_src.items():
         prefix, root = prefix_to(s)
         prot = prot_of(g.nodes[root])
-        clones = [f for f in finals if f["op"] == "CL"]
-        rest = [f for f in finals if f["op"] != "CL"]
+        clones = [f for f in finals if f["op"] in ("CL", "SU")]
+        rest = [f for f in finals if f["op"] not in ("CL", "SU")]
         for f in clones:                       # a clone needs a directory without a repository
             jobs.append({"prot": prot, "prefix": [], "finals": [f], "risky": False})
         fs = g.nodes[s]["fs"]
         risky = (not isinstance(fs, tuple)) and any(len(q) > 2 and q[:2] == ("p", "repo") and q[2] != ".git" and str(nd["t"]) == "l"
                                                     for q, nd in fs.items())
-        for i in range(0, len(rest), max_finals):
-            jobs.append({"prot": prot, "prefix": prefix, "finals": rest[i:i + max_finals], "risky": risky})
+        # the long-lived Stash object does not survive save/restore of the directory: such behaviours are
+        # executed from the start, one final step per job
+        mf = 1 if any(s_["op"] == "STL" for s_ in prefix + rest) else max_finals
+        for i in range(0, len(rest), mf):
+            jobs.append({"prot": prot, "prefix": prefix, "finals": rest[i:i + mf], "risky": risky})
     return jobs, {"states": len(g.nodes), "transitions": sum(len(v) for v in groups.values()),
                   "labelled_transitions": len(groups), "reachable": len(parent)}
 
@@ -296,10 +301,10 @@ def _exec_step(job, case, st, done_steps, res, head_tree):
     states, unsafe, prot = job["states"], job["unsafe"], job["prot"]
     op, tree = st["op"], st["tree"]
     links = _links_in_worktree(case) if os.path.isdir(case.W) else []
-    before = case.protected(include_config=(op != "CL"), stamp=True)
+    before = case.protected(include_config=(op not in ("CL", "SU")), stamp=True)
     outcome, exc = case.run(op, tree, st.get("mv"))
-    after = case.protected(include_config=(op != "CL"))
-    if op == "CL":
+    after = case.protected(include_config=(op not in ("CL", "SU")))
+    if op in ("CL", "SU"):
         # .git did not exist before: what a clone legitimately creates is what Repo.init creates
         ref = _git_reference(job["scratch"])
         for rel in [r for r in after if r not in before]:
@@ -363,7 +368,7 @@ def _exec_step(job, case, st, done_steps, res, head_tree):
             if any(unsafe.get((c, prot["ntfs"], prot["hfs"]), False) for c in p):
                 viol.append({"sig": f"{SITE[op]}|UnsafeRefused|unsafe path {'/'.join(p)!r} accepted ntfs={int(prot['ntfs'])} hfs={int(prot['hfs'])}",
                              "step": i, "what": f"{ENTRY[op]} reported success for a {'patch' if op == 'MV' else 'tree'} with the unsafe path {'/'.join(p)!r}: {seqtxt}"})
-    if op in ("CL", "RH", "RM") or (op in ("CO", "COF") and outcome == "ok"):
+    if op in ("CL", "SU", "RH", "RM") or (op in ("CO", "COF") and outcome == "ok"):
         head_tree = tree
     res["behaviours"] += 1
     if outcome != "ok" or any(len(p) > 2 and p[:2] == ("p", "repo") and p[2] != ".git" for p in fs):
@@ -427,7 +432,7 @@ def _run_job(job):
     res = {"id": job["id"], "violations": [], "drift": [], "executed": 0, "matched": 0, "obs": [], "behaviours": 0,
            "nontrivial": 0, "sample": None, "unreached": 0}
     first = (prefix + finals)[0]["op"]
-    case = c17_real.Case(root, prot, clone_first=(first == "CL"))
+    case = c17_real.Case(root, prot, clone_first=(first in ("CL", "SU")))
     head_tree = None
     try:
         done = []
